@@ -195,7 +195,7 @@ func Generate(seed uint64) *Corpus {
 	var names []string
 	add := func(s *StructDef) {
 		c.Structs = append(c.Structs, s)
-		if !s.Rejected() && !s.PanicInit {
+		if !s.Rejected() && !s.PanicInit && !s.HoldsPanic {
 			names = append(names, s.Name) // what generated definitions may nest
 		}
 	}
@@ -571,10 +571,18 @@ func (g *gen) aliasAndFixed() []*StructDef {
 		&Field{ID: 1, Name: "F1", T: &T{K: Struct, S: "LateInit0", Ptr: true}},
 		&Field{ID: 2, Name: "F2", T: &T{K: List, Elem: &T{K: Struct, S: "LateInit1"}}},
 		&Field{ID: 3, Name: "F3", T: &T{K: I64}})
+	// (what shows after such a failure is what the enclosing registration leaves behind: holders in three forms)
+	mk("HoldPanicInitB", false,
+		f(1, Default, I32),
+		&Field{ID: 2, Name: "F2", T: &T{K: Struct, S: "FixedU", Ptr: true}},
+		&Field{ID: 3, Name: "F3", T: &T{K: Struct, S: "PanicInit0", Ptr: true}, Req: Optional}).HoldsPanic = true
+	mk("HoldPanicInitC", false,
+		&Field{ID: 1, Name: "F1", T: &T{K: Map, Key: &T{K: String}, Elem: &T{K: Struct, S: "Alias1", Ptr: true}}},
+		&Field{ID: 2, Name: "F2", T: &T{K: Map, Key: &T{K: I32}, Elem: &T{K: Struct, S: "PanicInit1"}}}).HoldsPanic = true
 	mk("HoldPanicInit", false,
 		&Field{ID: 1, Name: "F1", T: &T{K: Struct, S: "FixedN", Ptr: true}},
 		&Field{ID: 2, Name: "F2", T: &T{K: List, Elem: &T{K: Struct, S: "PanicInit2", Ptr: true}}},
-		&Field{ID: 3, Name: "F3", T: &T{K: I64}}).PanicInit = true
+		&Field{ID: 3, Name: "F3", T: &T{K: I64}}).HoldsPanic = true
 	// nocopy views and the unknown-fields holder in the same definition (both refer to the message: one by design,
 	// the other must not), at the top level and nested
 	{
